@@ -282,3 +282,19 @@ class ProbeBar:
         self._active = False
         log_event("BarExit", c=self.chain)
         return False
+
+
+
+class BareTransition(Transition):
+    """A transition without statistics (statistic_types = None is documented as legal): x += 1."""
+
+    state_variables = {"x"}
+    statistic_types = None
+
+    def sample(self, state, rng):
+        state.x = state.x + 1.0
+        return state, None
+
+
+def bare_trace(state):
+    return {"x": np.array(state.x)}
